@@ -13,7 +13,7 @@ n=$(wc -l < /tmp/cb_$id.clean.txt)
 if [ $c1 -ne 0 ] || [ $c2 -ne 0 ]; then res="equiv-script-failed($c1,$c2)"; elif cmp -s /tmp/cb_$id.clean.txt /tmp/cb_$id.changed.txt; then res="identical($n lines)"; else res="DIFFERENT"; fi
 suite="-"
 if [ "$2" = "--suite" ]; then
-  suite=$(PYTHONPATH=$wt /venv/bin/python -m pytest -q -p no:cacheprovider -n 6 2>&1 | tail -1)
+  suite=$(PYTHONPATH=$wt /venv/bin/python -m pytest -q -p no:cacheprovider -n 6 --basetemp=$wt/.pt 2>&1 | tail -1)
 fi
 echo "$id equiv=$res suite=$suite"
 rm -f /tmp/cb_$id.clean.txt /tmp/cb_$id.changed.txt /tmp/cb_$id.err1 /tmp/cb_$id.err2
